@@ -1,6 +1,9 @@
 package refsrv
 
-import "fmt"
+import (
+	"fmt"
+	"io"
+)
 
 func sprintf(format string, a ...any) string { return fmt.Sprintf(format, a...) }
 
@@ -65,3 +68,42 @@ func (c *Conn) SendRawHandshake(data []byte) error {
 // HostileInner, if set, rewrites the encoded inner ClientHello of the reference client before it
 // is HPKE-sealed: the server then decrypts a hostile inner hello (process-global; set per world).
 var HostileInner func(encodedInner []byte) []byte
+
+// SendCBCPaddingOnlyRecord (TLS 1.0-1.2, CBC suite negotiated) sends an application_data record
+// that is correctly encrypted under the connection's write key but whose plaintext consists of
+// padding only: nblocks cipher blocks of the byte value len-1, i.e. valid padding that covers
+// the place where the MAC should be. A receiver must answer bad_record_mac. Returns an error
+// when the connection does not use a CBC suite.
+func (c *Conn) SendCBCPaddingOnlyRecord(nblocks int) error {
+	c.out.Lock()
+	defer c.out.Unlock()
+	cb, ok := c.out.cipher.(cbcMode)
+	if !ok {
+		return fmt.Errorf("refsrv: not a CBC suite")
+	}
+	bs := cb.BlockSize()
+	n := nblocks * bs
+	if n <= 0 || n > 256 {
+		return fmt.Errorf("refsrv: padding-only record of %d bytes", n)
+	}
+	pt := make([]byte, n)
+	for i := range pt {
+		pt[i] = byte(n - 1)
+	}
+	var body []byte
+	if c.out.version >= VersionTLS11 {
+		iv := make([]byte, bs)
+		if _, err := io.ReadFull(c.config.rand(), iv); err != nil {
+			return err
+		}
+		cb.SetIV(iv)
+		body = append(body, iv...)
+	}
+	cb.CryptBlocks(pt, pt)
+	body = append(body, pt...)
+	rec := []byte{byte(recordTypeApplicationData), byte(c.vers >> 8), byte(c.vers), byte(len(body) >> 8), byte(len(body))}
+	rec = append(rec, body...)
+	c.out.incSeq()
+	_, err := c.write(rec)
+	return err
+}
